@@ -50,6 +50,16 @@ try:
         tol = 1e-4 if rp['method'] == 'perturbative' else 2e-2
         if np.max(np.abs(got - want)) > tol:
             wit.append({'key': f'low-power:{L}km:{rp}', 'problems': [f'span loss {np.round(got, 4).tolist()} dB, budget {want:.4f} dB']})
+    # 1b. per-frequency loss coefficient: every channel is attenuated by the coefficient interpolated at its own frequency
+    table = {'value': [0.18, 0.20, 0.25], 'frequency': [191.0e12, 193.5e12, 196.5e12]}
+    for L, rp in itertools.product([50.0, 83.7], [dict(flag=False), pert[0], pert[4]]):
+        cases += 1
+        coef = np.interp(FREQ, table['frequency'], table['value'])
+        want = 1.0 + 0.3 + L * coef + 0.4
+        got = run(Fiber, L, rp, 1e-9, lumped=[], loss=table)
+        if np.max(np.abs(got - want)) > 1e-4:
+            wit.append({'key': f'per-frequency-loss:{L}km:{rp}', 'problems': [f'span loss {np.round(got, 4).tolist()} dB, expected per channel '
+                                                                            f'{np.round(want, 4).tolist()} dB']})
     # 2. perturbative and numerical methods agree at operating powers (SRS tilt of a few tenths of a dB)
     for L, pch in itertools.product([75.0, 90.0] if a.tier == 'quick' else [50.0, 75.0, 90.0, 100.0], [1e-3, 5e-3]):
         cases += 1
@@ -79,6 +89,6 @@ finally:
     SimParams.set_params({})
 finish('Raman solver: low-power limit = loss budget, methods agree, lumped losses once, counter-propagating pumps only add gain', 'bounded',
        'gnpy.core.science_utils.RamanSolver.calculate_stimulated_raman_scattering (+ unidirectional solvers) through Fiber / RamanFiber.propagate',
-       f'span lengths {lengths} km x perturbative orders 1-3 x three solver/result steps + numerical (20 m step); 6 channels; powers 1 nW, 1 mW, '
+       f'span lengths {lengths} km (+ a per-frequency loss table on 50 / 83.7 km) x perturbative orders 1-3 x three solver/result steps + numerical (20 m step); 6 channels; powers 1 nW, 1 mW, '
        '5 mW per channel; pumps 0.1 / 0.25 W at 201 and 205 THz; tolerances 1e-4 dB (perturbative limit), 0.02 dB (Euler), 0.05 dB (agreement)',
        cases, wit, t0=t0)
